@@ -177,14 +177,14 @@ func (pb *publisher) release() {
 func expandC07(t *testing.T, seed uint64, tier string) []*core.Plan {
 	r := core.NewRand(core.Derive(seed, "plan"))
 	p := &core.Plan{Check: "C07", Seed: seed}
-	p.SetKnob("ackmode", r.Pick(0, 0, 0, 1, 1, 2))
+	p.SetKnob("ackmode", r.Pick(0, 0, 0, 1, 3, 3, 2))
 	p.SetKnob("defer", r.Pick(0, 0, 1))
 	p.SetKnob("chunk", r.Pick(0, 0, -1, 1))
 	p.SetKnob("parpub", r.Pick(10, 10, 2, 1))
 	if seed%7 == 0 {
 		// token stream: 5 x ParallelPublishes publishes must all complete
 		pp := p.Knob("parpub", 10)
-		p.SetKnob("ackmode", r.Pick(0, 1))
+		p.SetKnob("ackmode", r.Pick(0, 1, 3))
 		p.SetKnob("defer", 0)
 		for i := 0; i < 5*pp; i++ {
 			p.Items = append(p.Items, core.Item{K: "pub", A: r.Pick(1, 2), S: Topics[r.Intn(len(Topics))], D: i + 1})
